@@ -46,6 +46,24 @@ theorem C02_rejected (s : Img) (W : WF s) (P : Placed s) (R : Ranges s) (op : Op
     rw [hh, hr] at this
     rw [this, W.sync.htab]
 
+/-- **A delete whose selector answers with an error deletes nothing**, wherever in the table the
+    error arises — in particular after objects before it were already selected (a caller's own
+    selector function may accept object 1 and fail on object 2): the handle, and every byte of the
+    file, are exactly as before, and the selector's error is the result.  (Before fix D14 the
+    library removed, and with `OptDeleteZero` zeroed, the objects selected before the error.) -/
+theorem C02_del_selector_error (s : Img) (sel : Sel) (z c : Bool) (t : TOpt) (now : Int) (e : Err)
+    (h : sel.firstErr ph s.rds = some e) :
+    step sha ph s (.del sel z c t) now = (s, .err e) := by
+  simp only [step, plan, deleteObjectsPlan, deleteLoop_err ph sel e z _ _ _ _ _ h, runPlan,
+    Store.callsPrefix]
+
+/-- the selector of `C02_del_selector_error`: accepts object 1, fails on object 2 -/
+def exPred : Sel := .pred (fun d => if d.id == 2 then .error .caller else .ok true)
+
+example : exPred.firstErr (fun _ => none)
+    [{ zeroDesc with used := true, id := 1 }, { zeroDesc with used := true, id := 2 }] = some .caller := by
+  decide
+
 /-- live object IDs are unique and non-colliding, and free + used descriptors = capacity, in every
     well-formed state; both are preserved by every operation (hence hold along every history) -/
 theorem C02_ids_accounting (s : Img) (W : WF s) :
